@@ -45,7 +45,7 @@ SPEC = {
     'separator-joined keys: the separator does not occur in key + sep[:-1] (NoOverlap); for a 1-character separator this is '
     '"not in any key"; the weaker reading fails for longer separators (theorem sep_overlap_counterexample, proposed finding sep-overlap)',
     'sibling keys of a State are all str or all int (Python cannot sort mixed paths); try_convert_int is modelled on optional "-" + ASCII digits',
-    'dict equality is order-insensitive: theorems that cannot state list equality state equality of the complete path->value content up to permutation',
+    'dict equality is the structural, order-insensitive DictEq (Python ==); theorem dictEq_iff_content_perm ties it to equality of the complete path->value content up to permutation, which is what the permutation-level theorems establish',
   ],
   'model_partial': [],
 }
@@ -258,8 +258,13 @@ def fv_json(v, empty):
 def check_rt(ctx, drv, cases, libs=('tu', 'nnx')):
   """cases: dicts {kind:'rt', tree, keep, isleaf, sep, frozen}"""
   reqs = [('fr', [c['tree'], c['keep'], c['isleaf'], c['sep']]) for c in cases]
+  seq_idx = {}
+  for i, c in enumerate(cases):
+    if 'nnx' in libs and c['sep'] is None and not c['keep']:
+      seq_idx[i] = len(reqs)
+      reqs.append(('to_seq', [c['tree'], c['isleaf']]))
   outs = drv.run(reqs)
-  for c, m in zip(cases, outs):
+  for ci, (c, m) in enumerate(zip(cases, outs)):
     tree, keep, spec, sep = c['tree'], c['keep'], c['isleaf'], c['sep']
     isleaf = py_isleaf(spec)
     x0 = jt(tree)
@@ -329,6 +334,25 @@ def check_rt(ctx, drv, cases, libs=('tu', 'nnx')):
         ctx.count('flat_order_agrees', same_order)
       if root_leaf:
         ctx.count('excluded_point', 'root-leaf:' + (i_rt[1] if i_rt[0] == 'err' else 'wrapped'))
+      # ---- nnx.traversals.flatten_to_sequence / unflatten_mapping on a list of pairs
+      if lib == 'nnx' and ci in seq_idx:
+        xs = FrozenDict(x0) if c.get('frozen') and in_domain else jt(tree)
+        sq = call(nt.flatten_to_sequence, xs, is_leaf=isleaf)
+        ctx.count('to_seq', sq[0])
+        if in_domain:
+          ok = sq[0] == 'ok' and f[0] == 'ok' and len(sq[1]) == len(f[1]) and _flat_equal(dict(sq[1]), f[1], empty)
+          back = call(nt.unflatten_mapping, sq[1]) if ok else None
+          if not ok or back[0] != 'ok' or ref_norm_root(plain(back[1]), False, isleaf) != ref_norm_root(x0, False, isleaf):
+            ctx.violation('to-seq-wrong', f'nnx: flatten_to_sequence({x0!r}, is_leaf={spec}) = {sq}; flatten_mapping gives {f}; unflatten_mapping of the sequence gives {back}', cc)
+            continue
+        ms = outs[seq_idx[ci]]
+        i_sq = ('ok', canon_flat([[list(k), fv_json(v, empty)] for k, v in sq[1]])) if sq[0] == 'ok' else sq
+        m_sq = ('ok', canon_flat(ms[1])) if ms[0] == 'ok' else ms
+        if i_sq != m_sq and not root_leaf:
+          ctx.disagreements_checked += 1
+          ctx.violation('to-seq-model-mismatch', f'flatten_to_sequence differs from the model on {cc}: impl {i_sq}, model {m_sq}', cc, concrete=False)
+        elif sq[0] == 'ok' and ms[0] == 'ok':
+          ctx.count('seq_order_agrees', [e[0] for e in ms[1]] == [list(k) for k, _ in sq[1]])
 
 
 def _flat_equal(got, want, empty):
@@ -734,6 +758,31 @@ def check_split(ctx, drv, cases):
       if mg[0] != 'ok' or _pruned(mg[1]) != wantm or any(v is not byp[p] for p, v in ref_leaves(plain(mg[1]))):
         ctx.violation('merge-not-inverse-of-split', f'merge_state(*split_state(s, {c["preds"]})) = {_show(mg)} for s = {base!r}', c)
         continue
+    # ---- set laws as algebra (oracles on the implementation)
+    if sp[0] == 'ok' and n >= 2:
+      sts = as_list(sp[1])
+      order = list(range(n))
+      ctx.rng.shuffle(order)
+      mg2 = call(statelib.merge_state, *[sts[j] for j in order], errmap=ERR_STATE)
+      byp = dict(L)
+      if mg2[0] != 'ok' or _pruned(mg2[1]) != ref_norm_root(base, False, None) or any(v is not byp[p] for p, v in ref_leaves(plain(mg2[1]))):
+        ctx.violation('merge-order-dependent', f'merge_state of the parts of split_state(s, {c["preds"]}) in order {order} = {_show(mg2)} for s = {base!r}', dict(c, order=order))
+        continue
+    if fi[0] == 'ok':
+      fsts = as_list(fi[1])
+      i0 = ctx.rng.randrange(n)
+      again = call(statelib.filter_state, fsts[i0], *preds, errmap=ERR_SPLIT)
+      wantL = dict(ref_leaves(plain(fsts[i0])))
+      okk = again[0] == 'ok'
+      if okk:
+        for j, st in enumerate(as_list(again[1])):
+          got = dict(ref_leaves(plain(st)))
+          wj = wantL if j == i0 else {}
+          if set(got) != set(wj) or any(got[p] is not wj[p] for p in wj):
+            okk = False
+      if not okk:
+        ctx.violation('filter-not-idempotent', f'filter_state(filter_state(s, F)[{i0}], F) = {_show(again)} for s = {base!r}, F = {c["preds"]}', dict(c, part=i0))
+        continue
     i_sp = ('ok', [tj(x) for x in as_list(sp[1])]) if sp[0] == 'ok' else sp
     i_fi = ('ok', [tj(x) for x in as_list(fi[1])]) if fi[0] == 'ok' else fi
     cl = lambda l: [canon(x) for x in l]  # noqa: E731
@@ -743,6 +792,23 @@ def check_split(ctx, drv, cases):
       continue
     if sp[0] == 'ok':
       _cmp(ctx, 'merge-model-mismatch', 'merge_state of the split', c, _ok_tree(mg), m_merge)
+
+
+def homog(t):
+  """sibling keys all str or all int, at every level (Python can sort the paths)"""
+  if not isinstance(t, Mapping):
+    return True
+  return len({type(k) for k in t}) <= 1 and all(homog(v) for v in t.values())
+
+
+def _merge_plain(x, y):
+  out = {k: v for k, v in x.items()}
+  for k, v in y.items():
+    if isinstance(v, Mapping) and isinstance(out.get(k), Mapping):
+      out[k] = _merge_plain(out[k], v)
+    else:
+      out[k] = v
+  return out
 
 
 def _show(r):
@@ -804,6 +870,25 @@ def check_pair(ctx, drv, cases):
         break
     if bad:
       continue
+    # ---- set laws as algebra (oracles on the implementation; skipped when Python could not sort the merged paths)
+    if compat and homog({**_merge_plain(pa, pb)}):
+      ab = call(lambda: (a | b) - b, errmap=ERR_STATE)
+      if not holds(ab, wantd):
+        ctx.violation('or-diff-not-subset', f'({pa!r} | {pb!r}) - {pb!r} = {_show(ab)}; expected the leaves of a absent from b: {wantd!r}', c)
+        continue
+    if 'c' in c:
+      cst = mk_state(c['c'], c['leaf'])
+      pc = plain(cst)
+      Lc = dict(ref_leaves(pc))
+      bc = list(Lb) + list(Lc)
+      if all(_incomp_or_equal(p, q) for p in bc for q in bc) and homog(_merge_plain(pb, pc)):
+        lhs = call(lambda: statelib.diff(statelib.diff(a, b), cst), errmap=ERR_STATE)
+        rhs = call(lambda: statelib.diff(a, b | cst), errmap=ERR_STATE)
+        wantdd = {p: v for p, v in La.items() if p not in Lb and p not in Lc}
+        ctx.count('diff_diff_checked', True)
+        if not holds(lhs, wantdd) or not holds(rhs, wantdd):
+          ctx.violation('diff-diff-law', f'a - b - c = {_show(lhs)} and a - (b | c) = {_show(rhs)} for a = {pa!r}, b = {pb!r}, c = {pc!r}; both must hold {wantdd!r}', c)
+          continue
     key_sfx = '' if compat else '-incompatible'
     if not _cmp(ctx, 'merge-model-mismatch' + key_sfx, 'merge_state(a, b)', c, _ok_tree(mg), m_merge):
       continue
@@ -1014,7 +1099,21 @@ def gen_pair(rng):
           b = tj(_drop_empty(m))
     if rng.random() < 0.15:
       b['D'].append(['empty_' + str(rng.randrange(3)), {'D': []}])
-  return {'kind': 'st-pair', 'a': a, 'b': b, 'leaf': rng.choice(['int', 'vs'])}
+  out = {'kind': 'st-pair', 'a': a, 'b': b, 'leaf': rng.choice(['int', 'vs'])}
+  # a third state for a - b - c = a - (b | c): a sub-selection of a's paths plus fresh ones
+  m3 = {}
+  n3 = 300
+  for p, _ in la:
+    if rng.random() < 0.4:
+      n3 += 1
+      cur = m3
+      for k in p[:-1]:
+        cur = cur.setdefault(k, {})
+      cur[p[-1]] = n3
+  if rng.random() < 0.5:
+    m3['c_only'] = {'z': 399}
+  out['c'] = tj(m3)
+  return out
 
 
 def _drop_empty(m):
@@ -1164,7 +1263,7 @@ def run(ctx):
 
 def _run_case(ctx, drv, obj):
   case = obj.get('case', obj)
-  case = {k: v for k, v in case.items() if k not in ('lib', 'variant', 'op', 'origin')}
+  case = {k: v for k, v in case.items() if k not in ('lib', 'variant', 'op', 'origin', 'order', 'part')}
   kind = case.get('kind')
   if kind == 'rt':
     case.setdefault('frozen', False)
